@@ -14,7 +14,8 @@ theorem C17_facts :
     ∧ Receptor.Facts.sock_readfrom_selects = "m = <-pc.recvChan|<-pc.context.Done();m = <-pc.recvChan|<-pc.context.Done()|<-time.After(time.Until(pc.GetReadDeadline()))"
     ∧ Receptor.Facts.sock_ad_remove_checked = true
     ∧ Receptor.Facts.sock_close = "Lock;defer-Unlock;unbind;cancel;advertise:withdraw;return nil"
-    ∧ Receptor.Facts.sock_dial_cleanup = "<-qc.Context().Done()|<-s.context.Done();_ = qs.Close();_ = pc.Close()" := by decide +kernel
+    ∧ Receptor.Facts.sock_dial_cleanup = "<-qc.Context().Done()|<-s.context.Done();_ = qs.Close();_ = pc.Close()"
+    ∧ Receptor.Facts.sock_listener_close_order = "quic-listener<packet-conn" := by decide +kernel
 
 theorem modSock_panicked (s : St) (i : Nat) (f : Sock → Sock) : (modSock s i f).panicked = s.panicked := by
   unfold modSock; split <;> rfl
